@@ -75,10 +75,8 @@ func h08a(w int, thorough bool) {
 		pads = append(pads, p)
 	}
 	if thorough {
-		for p := 2044 - 4 - w - 1; p <= 2044; p++ {
-			pads = append(pads, p)
-		}
-		pads = append(pads, 0)
+		// second refill: content just before, across and after the boundary
+		pads = append(pads, 2044-4-w, 2044-4-1, 2044, 0)
 	}
 	pad := pads[vxChoice(len(pads))]
 	data := make([]byte, 0, pad+w+32)
@@ -90,7 +88,12 @@ func h08a(w int, thorough bool) {
 	tail := " tail of the line\nzz\n"
 	data = append(data, tail...)
 	r := &vxChunkReader{data: data, failAt: -1}
-	r.chunks = []int{[]int{1, 1020, 1021, 4096}[vxChoice(4)], []int{3, 4096}[vxChoice(2)]}
+	if thorough {
+		// one-byte and 1020-byte first reads stay with the 2-byte content (H08aQ, also in this tier)
+		r.chunks = []int{[]int{1021, 4096}[vxChoice(2)], []int{3, 4096}[vxChoice(2)]}
+	} else {
+		r.chunks = []int{[]int{1, 1020, 1021, 4096}[vxChoice(4)], []int{3, 4096}[vxChoice(2)]}
+	}
 	r.eofWithData = vxBool()
 	ref := append(append([]byte{}, content...), tail...)
 	if vxNative() {
